@@ -76,6 +76,33 @@ def remove_log_statements(text, rewrites, where):
     return ''.join(out)
 
 
+def replace_macro_statements(text, mname, repl, tag, rewrites, where):
+    """`name!( ... );` or `name!( ... )` in statement position -> repl (error-path macros whose
+    expansion formats a message: the message is dropped, the control flow is kept by repl)."""
+    rx = re.compile(r'\b' + re.escape(mname) + r'!\(')
+    out, pos, n = [], 0, 0
+    while True:
+        m = rx.search(text, pos)
+        if not m:
+            out.append(text[pos:])
+            break
+        par = text.index('(', m.start())
+        end = match_close(text, par)
+        j = end
+        while j < len(text) and text[j] in ' \t':
+            j += 1
+        if j < len(text) and text[j] == ';':
+            j += 1
+        out.append(text[pos:m.start()])
+        out.append(repl)
+        rewrites.append({'tag': tag, 'where': where, 'before': ' '.join(text[m.start():j].split())[:160], 'after': repl})
+        pos = j
+        n += 1
+    if n == 0:
+        raise ExtractionLost('%s: rewrite %s: no `%s!(..)` statement found' % (where, tag, mname))
+    return ''.join(out)
+
+
 def _cfg_eval(pred, cfg):
     """Evaluate a cfg predicate string under cfg = {'target_os': 'linux', 'features': set(), 'flags': set()}"""
     pred = pred.strip()
@@ -188,6 +215,10 @@ class Item:
         self.keep_variants = None
         self.pre = []
         self.line = line
+        self.fragment = None   # (mode, anchor): 'block-after' | 'head-until'
+        self.header = []
+        self.tail = []
+        self.macro_stmts = []  # (tag, macro name, replacement statement)
 
 
 class Unit:
@@ -246,6 +277,13 @@ def parse_sidecar(path):
                     raise SpecError('%s:%d: bad %s' % (path, ln, key))
                 cur = []
                 item.inserts.append((key, int(m.group(1)), _unq(m.group(2)), cur, ln))
+            elif key in ('before-re', 'after-re'):
+                # anchor given as a regular expression (for statements whose arguments may change)
+                m = re.match(r'(\d+)\s+/((?:[^/\\]|\\.)*)/\s*$', rest)
+                if not m:
+                    raise SpecError('%s:%d: bad %s' % (path, ln, key))
+                cur = []
+                item.inserts.append((key[:-3], int(m.group(1)), re.compile(m.group(2), re.S), cur, ln))
             elif key == 'sub':
                 m = re.match(r'(\S+)\s+(\d+)\s+' + _BT + r'\s*=>\s*' + _BT + r'\s*$', rest)
                 if not m:
@@ -276,6 +314,16 @@ def parse_sidecar(path):
             elif key == 'keep-derives':
                 item.keep_derives = True
                 cur = None
+            elif key == 'header':
+                cur = item.header
+            elif key == 'tail':
+                cur = item.tail
+            elif key == 'macro-stmt':
+                m = re.match(r'(\S+)\s+(\S+)\s*=>\s*' + _BT + r'\s*$', rest)
+                if not m:
+                    raise SpecError('%s:%d: bad macro-stmt' % (path, ln))
+                item.macro_stmts.append((m.group(1), m.group(2), _unq(m.group(3))))
+                cur = None
             else:
                 raise SpecError('%s:%d: unknown directive %s' % (path, ln, key))
             continue
@@ -299,13 +347,24 @@ def parse_sidecar(path):
                 item = Item(m.group(1), m.group(2), m.group(3), m.group(4), m.group(5), ln)
                 unit.parts.append(('item', item))
                 cur = None
+            elif w[0] == 'fragment':
+                # //@ fragment <path> fn <name> [in `impl`] block-after|head-until `anchor` as <newname>
+                m = re.match(r'fragment\s+(\S+)\s+fn\s+(\S+)(?:\s+in\s+`([^`]*)`)?\s+(block-after|head-until)\s+' + _BT + r'\s+as\s+(\S+)\s*$', d)
+                if not m:
+                    raise SpecError('%s:%d: bad fragment' % (path, ln))
+                item = Item(m.group(1), 'fn', m.group(2), m.group(3), m.group(6), ln)
+                item.fragment = (m.group(4), _unq(m.group(5)))
+                unit.parts.append(('item', item))
+                cur = None
             elif w[0] == 'enumvals':
                 unit.parts.append(('enumvals', w[1], w[2], w[3]))
                 cur = None
                 item = None
-            elif w[0] == 'strtable':
+            elif w[0] in ('strtable', 'strtable-variants'):
                 # //@ strtable <path> <fn> <enum-path> <enum> <name-regex> <constname>
-                unit.parts.append(('strtable', w[1], w[2], w[3], w[4], w[5], w[6]))
+                # strtable: discriminants of the variants the names map to (sorted by name);
+                # strtable-variants: the variants themselves, as Seq<enum> (independent of numbering)
+                unit.parts.append(('strtable', w[1], w[2], w[3], w[4], w[5], w[6], w[0] == 'strtable-variants'))
                 cur = None
                 item = None
             elif w[0] == 'end':
@@ -387,8 +446,11 @@ def _apply_inserts(text, inserts, where):
 def _nth(text, anchor, n, where):
     """Start/end of the n-th occurrence of anchor; whitespace runs in the anchor match any
     whitespace (so re-indentation by rustfmt does not lose it)."""
-    parts = [re.escape(x) for x in anchor.split()]
-    pat = re.compile(r'\s+'.join(parts))
+    if hasattr(anchor, 'finditer'):
+        pat, anchor = anchor, '/' + anchor.pattern + '/'
+    else:
+        parts = [re.escape(x) for x in anchor.split()]
+        pat = re.compile(r'\s+'.join(parts))
     ms = list(pat.finditer(text))
     if len(ms) < n:
         raise ExtractionLost('%s: anchor `%s` (occurrence %d) not found' % (where, anchor, n))
@@ -439,7 +501,8 @@ def build(repo, sidecar_path, extra_spec=None):
             if open_wrap:
                 g.add('}', lambda i: ('gen',))
                 open_wrap = None
-            _, path, fnname, epath, enum, rx, cname = part
+            _, path, fnname, epath, enum, rx, cname = part[:7]
+            as_variants = len(part) > 7 and part[7]
             src = srcs.setdefault(path, open(os.path.join(repo, path)).read())
             esrc = srcs.setdefault(epath, open(os.path.join(repo, epath)).read())
             vals, _l0 = read_enum_discriminants(esrc, enum)
@@ -448,7 +511,7 @@ def build(repo, sidecar_path, extra_spec=None):
             body = src[span[0]:span[1]]
             l0 = line_of(src, span[0])
             rows = []
-            for m in re.finditer(r'((?:"(?:[^"\\\\]|\\\\.)*"\s*\|?\s*)+)=>\s*' + re.escape(enum) + r'::([A-Za-z0-9_]+)\s*,', body):
+            for m in re.finditer(r'((?:"(?:[^"\\\\]|\\\\.)*"\s*\|?\s*)+)=>\s*(?:Some\(\s*)?' + re.escape(enum) + r'::([A-Za-z0-9_]+)\s*\)?\s*,', body):
                 for nm in re.findall(r'"((?:[^"\\\\]|\\\\.)*)"', m.group(1)):
                     if re.fullmatch(rx, nm):
                         if m.group(2) not in disc:
@@ -461,7 +524,10 @@ def build(repo, sidecar_path, extra_spec=None):
                             'gen_first': len(g.lines) + 1, 'gen_last': len(g.lines) + 2,
                             'sha256': hashlib.sha256(repr(rows).encode()).hexdigest(), 'count': len(rows)})
             g.add('// names read from the match arms of fn %s: %s' % (fnname, ', '.join('%s=>%s' % (r[0], r[1]) for r in rows)), lambda i: ('src', path, l0))
-            g.add('spec fn %s() -> Seq<int> { seq![%s] }' % (cname, ', '.join('%dint' % r[2] for r in rows)), lambda i: ('src', path, l0))
+            if as_variants:
+                g.add('spec fn %s() -> Seq<%s> { seq![%s] }' % (cname, enum, ', '.join('%s::%s' % (enum, r[1]) for r in rows)), lambda i: ('src', path, l0))
+            else:
+                g.add('spec fn %s() -> Seq<int> { seq![%s] }' % (cname, ', '.join('%dint' % r[2] for r in rows)), lambda i: ('src', path, l0))
             continue
         item = part[1]
         src = srcs.setdefault(item.path, open(os.path.join(repo, item.path)).read())
@@ -473,6 +539,30 @@ def build(repo, sidecar_path, extra_spec=None):
         raw = src[span[0]:span[1]]
         src_line0 = line_of(src, span[0])
         where = '%s:%d %s %s' % (item.path, src_line0, item.kind, item.name)
+        if item.fragment:
+            # a FRAGMENT of the function: one balanced block (or the statements before an anchor),
+            # wrapped in a synthetic signature given by the side-car.  Everything else of the
+            # function is dropped and that is logged; the fragment text itself is subject to the
+            # same splice check as a whole function.
+            mode, anchor = item.fragment
+            fbo = body_open(raw, 0)
+            a0, a1 = _nth(raw, anchor, 1, where)
+            if mode == 'block-after':
+                ob = raw.rindex('{', a0, a1)
+                cb = match_close(raw, ob)
+                inner = raw[ob + 1:cb - 1]
+                f0 = ob
+            else:
+                inner = raw[fbo + 1:a0]
+                f0 = fbo
+            src_line0 = line_of(src, span[0] + f0)
+            where = '%s:%d fragment %s of fn %s' % (item.path, src_line0, item.newname, item.name)
+            header = '\n'.join(l for l, _ in item.header).rstrip()
+            tail = '\n'.join(l for l, _ in item.tail)
+            g.rewrites.append({'tag': 'Rfrag', 'where': where,
+                               'before': 'fn %s: everything outside the %s `%s`' % (item.name, 'block opened by' if mode == 'block-after' else 'statements before', anchor),
+                               'after': 'dropped; the fragment is wrapped in the synthetic signature `%s`%s' % (' '.join(header.split()), (' and followed by `%s`' % tail.strip()) if tail.strip() else '')})
+            raw = header + ' {' + dedent(inner.rstrip('\n')) + ('\n' + tail if tail.strip() else '') + '\n}'
         sha = hashlib.sha256(raw.encode()).hexdigest()
         text = dedent(raw)
         if item.keep_variants is not None and item.kind == 'enum':
@@ -518,6 +608,8 @@ def build(repo, sidecar_path, extra_spec=None):
             text = remove_log_statements(text, g.rewrites, where)
             if '#[cfg(' in text:
                 text = apply_cfg(text, g.rewrites, where, getattr(unit, 'cfg', None))
+        for (tag, mname, repl) in item.macro_stmts:
+            text = replace_macro_statements(text, mname, repl, tag, g.rewrites, where)
         for (tag, count, k, frm, to) in item.subs:
             if k == 'lit':
                 c = text.count(frm)
